@@ -132,49 +132,55 @@ RectStim ==
 Tq(t) == 4 * t
 Rot(k, c) == ((k + 2 + c - 1) % 5) - 2
 Fr(k, ch) == [c \in 1..ch |-> [d |-> << Rot(k, c), 2 >>]]
-OpW(o) == IF o.op = "in" THEN o.k + 2 ELSE (IF o.op = "setA" THEN 5 ELSE 8) + o.t
+OpW(o) == IF o.op \in {"in", "z"} THEN o.k + 2 ELSE (IF o.op = "setA" THEN 5 ELSE 8) + o.t
 HW(h) == LET S[i \in 0..Len(h)] == IF i = 0 THEN 0 ELSE 11 * S[i - 1] + OpW(h[i]) IN S[Len(h)]
 EFmts == << "f32", "f64", "i16" >>
 EDets == << "full", "pos", "neg", "rms" >>
-EnvStim ==
-  UNION { { LET w   == HW(h) + 7 * a + 13 * r
-                ch  == (w % 4) + 1
-                via == IF (w \div 4) % 3 = 0 THEN "signal" ELSE "direct"
-                det == EDets[((w \div 3) % 4) + 1]
-                ev(o) == IF o.op = "in"
-                           THEN [ev |-> IF via = "signal" THEN "env_sig_next" ELSE "env_next", a |-> [x |-> Fr(o.k, ch)]]
-                           ELSE [ev |-> IF via = "signal" THEN "env_sig_set" ELSE "env_set",
-                                 a |-> [which |-> IF o.op = "setA" THEN "attack" ELSE "release", tq |-> Tq(o.t)]]
-            IN << [ev |-> "reset", comp |-> "env",
-                   cfg |-> [fmt |-> EFmts[(w % 3) + 1], ch |-> ch, det |-> det,
-                            n |-> IF det = "rms" THEN 1 + (w % 2) ELSE 0,
-                            attack |-> Tq(a), release |-> Tq(r), via |-> via]] >>
-               \o [i \in 1..Len(h) |-> ev(h[i])]
-            : h \in [1..StimLen -> Ops] } : a \in T, r \in T }
-\* "a setter affects only later frames" on the exact domain: frame, setter, frame for every combination
-SetHist(k1, o, t, k2) == << [op |-> "in", k |-> k1], [op |-> o, t |-> t], [op |-> "in", k |-> k2] >>
-SetExec(h, a0, r0) ==
+\* one detector execution.  The configuration is spread by the hash w.  A zero time is handed over as IEEE
+\* negative zero (nza / nzr / nz = 1) in about half of its occurrences, spread by w as well: -0.0 = 0 is the
+\* time 0 to the model (gain 0) -- the exploration above needs no fourth time constant for it.
+\* sl >= 0: adaptor run over a source signal of sl frames; the operations "z" past its end carry the
+\* equilibrium frame (what a finite signal yields there); sl = -1: never read past the end.
+ZFr(ch) == [c \in 1..ch |-> [d |-> << 0, 2 >>]]
+Exec(h, a0, r0, sl) ==
   LET w   == HW(h) + 7 * a0 + 13 * r0
       ch  == (w % 4) + 1
-      via == IF (w \div 4) % 3 = 0 THEN "signal" ELSE "direct"
+      via == IF sl >= 0 \/ (w \div 4) % 3 = 0 THEN "signal" ELSE "direct"
       det == EDets[((w \div 3) % 4) + 1]
-      evOf(o) == IF o.op = "in"
-                   THEN [ev |-> IF via = "signal" THEN "env_sig_next" ELSE "env_next", a |-> [x |-> Fr(o.k, ch)]]
-                   ELSE [ev |-> IF via = "signal" THEN "env_sig_set" ELSE "env_set",
-                         a |-> [which |-> IF o.op = "setA" THEN "attack" ELSE "release", tq |-> Tq(o.t)]]
+      evOf(o, i) ==
+        IF o.op \in {"in", "z"}
+          THEN [ev |-> IF via = "signal" THEN "env_sig_next" ELSE "env_next",
+                a |-> [x |-> IF o.op = "z" THEN ZFr(ch) ELSE Fr(o.k, ch)]]
+          ELSE [ev |-> IF via = "signal" THEN "env_sig_set" ELSE "env_set",
+                a |-> [which |-> IF o.op = "setA" THEN "attack" ELSE "release", tq |-> Tq(o.t),
+                       nz |-> IF o.t = 0 THEN (w + i) % 2 ELSE 0]]
   IN << [ev |-> "reset", comp |-> "env",
          cfg |-> [fmt |-> EFmts[(w % 3) + 1], ch |-> ch, det |-> det,
                   n |-> IF det = "rms" THEN 1 + (w % 2) ELSE 0,
-                  attack |-> Tq(a0), release |-> Tq(r0), via |-> via]] >>
-     \o [i \in 1..Len(h) |-> evOf(h[i])]
+                  attack |-> Tq(a0), release |-> Tq(r0),
+                  nza |-> IF a0 = 0 THEN (w \div 5) % 2 ELSE 0, nzr |-> IF r0 = 0 THEN (w \div 7) % 2 ELSE 0,
+                  via |-> via, srclen |-> sl]] >>
+     \o [i \in 1..Len(h) |-> evOf(h[i], i)]
+EnvStim == UNION { { Exec(h, a, r, -1) : h \in [1..StimLen -> Ops] } : a \in T, r \in T }
+\* "a setter affects only later frames" on the exact domain: frame, setter, frame for every combination
+SetHist(k1, o, t, k2) == << [op |-> "in", k |-> k1], [op |-> o, t |-> t], [op |-> "in", k |-> k2] >>
 SetStim ==
-  UNION { { SetExec(SetHist(k1, o, t, k2), a0, r0)
+  UNION { { Exec(SetHist(k1, o, t, k2), a0, r0, -1)
             : k1 \in K \ {0}, k2 \in K \ {0}, o \in {"setA", "setR"}, t \in T } : a0 \in T, r0 \in T }
-Stimuli == RectStim \cup EnvStim \cup SetStim
+\* the adaptor over a finite source that is read past its end: the envelope of the history followed by
+\* equilibrium frames (the release tail), also with a setter after the source has ended
+In(k) == [op |-> "in", k |-> k]
+Z == [op |-> "z", k |-> 0]
+TailStim ==
+  UNION { { Exec(<< In(k), Z, Z >>, a0, r0, 1) : k \in K \ {0} }
+          \cup { Exec(<< In(k1), In(k2), Z >>, a0, r0, 2) : k1 \in K \ {0}, k2 \in {-1, 2} }
+          \cup { Exec(<< In(k), [op |-> o, t |-> t], Z, Z >>, a0, r0, 1) : k \in {-2, 1}, o \in {"setA", "setR"}, t \in T }
+          : a0 \in T, r0 \in T }
+Stimuli == RectStim \cup EnvStim \cup SetStim \cup TailStim
 WriteStimuli ==
   IF "STIM_OUT" \in DOMAIN IOEnv
     THEN /\ ndJsonSerialize(IOEnv.STIM_OUT, SetToSeq(Stimuli))
-         /\ PrintT(<< "STIMULI", Cardinality(RectStim), Cardinality(EnvStim), Cardinality(SetStim) >>)
+         /\ PrintT(<< "STIMULI", Cardinality(RectStim), Cardinality(EnvStim), Cardinality(SetStim), Cardinality(TailStim) >>)
     ELSE TRUE
 ASSUME WriteStimuli
 =============================================================================
